@@ -84,7 +84,7 @@ def process_all_requirements(pyscript_folder, requirements_paths, requirements_f
             try:
                 # Attempt to get version of package. Do nothing if it's found since
                 # we want to use the version that's already installed to be safe
-                parts = pkg.split("==")
+                parts = [part.strip() for part in pkg.split("==")]
                 if len(parts) > 2 or "," in pkg or ">" in pkg or "<" in pkg:
                     _LOGGER.error(
                         (
@@ -99,6 +99,8 @@ def process_all_requirements(pyscript_folder, requirements_paths, requirements_f
                     new_version = UNPINNED_VERSION
                 else:
                     new_version = parts[1]
+                    # a malformed version raises ValueError, so the line is skipped
+                    Version(new_version)
                 pkg_name = parts[0]
 
                 current_pinned_version = all_requirements_to_install.get(pkg_name, {}).get(ATTR_VERSION)
